@@ -45,6 +45,45 @@ def ref_field_bindings(prog):
     return res
 
 
+def r07b_params(rep, prog):
+    """a reference member initialised from a *by-value* constructor parameter refers to storage that is released when
+    the constructor returns (violation unless the referenced type is an empty class: nothing is read through it)"""
+    n = 0
+    for f in prog.functions:
+        fr = f.fref
+        if not fr.get('ctor') or f.implicit:
+            continue
+        if not (f.file.startswith(env.REPO + '/include') or f.file.startswith(env.WITNESS)):
+            continue
+        pids = f.param_ids
+        for ci in f.ctor_inits:
+            if 'field' not in ci or 'node' not in ci:
+                continue
+            fd = prog.vars[ci['field']]
+            ft = prog.type(fd['ty']) or {}
+            if not ft.get('ref'):
+                continue
+            v = ex.var_of(ci['node'])
+            if v not in pids:
+                continue
+            n += 1
+            pt = prog.type(prog.vars[v]['ty']) or {}
+            what = 'reference member %s::%s is bound to storage that outlives the constructor' % (
+                (fr.get('rec') or '?').split('::')[-1], fd['name'])
+            if pt.get('ref'):
+                rep.ok('R07b', ci['node'], f, what, 'initialised from the reference parameter %s' % prog.vars[v]['name'])
+                continue
+            bt = prog.base_type(prog.vars[v]['ty']) or {}
+            if bt.get('empty'):
+                rep.info('R07b', ci['node'], f, what, 'by-value parameter of the EMPTY class %s: nothing is ever read through the reference' % (bt.get('rec') or bt.get('s')))
+                continue
+            rep.violation('R07b', ci['node'], f, what,
+                          'the member is initialised from the by-value parameter %s (type %s), which is destroyed when the constructor '
+                          'returns: every later read through the member uses released storage' % (prog.vars[v]['name'], bt.get('s') or bt.get('rec')),
+                          key='R07b|%s|%s::%s|byvalue' % (f.g, fr.get('rec'), fd['name']))
+    return n
+
+
 def is_temporary(arg):
     """the argument expression materialises a temporary that is bound to the reference parameter"""
     n = arg
@@ -296,6 +335,7 @@ def run(rep, tier):
     rep.rule('R07b', 'reference members are not bound to dying non-empty temporaries', floor=20)
     rep.rule('R10a', 'R07c: a NUL written into the fgets buffer only replaces a line terminator (never buffer[-1])', floor=1)
     rep.rule('R10s', 'R07c: %s conversions cannot overflow', floor=1)
+    rep.rule('R10b', 'R07c: the optional trailing weight is initialised before sscanf (no read of an indeterminate double on unweighted lines)', floor=1)
     rep.rule('R07d', 'no dereference of end()', floor=0)
     rep.rule('R07e', 'unchecked indexing inside blocked_range task bodies stays in bounds', floor=1)
     tus = [env.witness_tu()]
@@ -308,6 +348,7 @@ def run(rep, tier):
         F, W = approx.analyse(prog)
         approx.report(rep, F, ['R05a'])
         c, s = r07b(rep, prog)
+        r07b_params(rep, prog)
         nclasses, nsites = max(nclasses, c), max(nsites, s)
         nderef += r07d(rep, prog)
         r07e(rep, prog)
@@ -315,7 +356,7 @@ def run(rep, tier):
             sub = type(rep)(rep.prop, rep.tier)
             c10.check_reader(sub, prog, fn)
             for i in sub.instances.values():
-                if i.rule in ('R10a', 'R10s'):
+                if i.rule in ('R10a', 'R10s', 'R10b'):
                     rep.add(i.rule, i.site, i.function, i.what, i.status, i.detail, key=i.key)
     rep.extra['classes_with_reference_members'] = nclasses
     rep.extra['construction_sites'] = nsites
@@ -327,6 +368,9 @@ def run(rep, tier):
     pp = env.extract([pos], 'full')[pos]
     prep = type(rep)(rep.prop, rep.tier)
     r07b(prep, pp)
+    prep2 = type(rep)(rep.prop, rep.tier)
+    r07b_params(prep2, pp)
+    rep.positive('R07b', 'witness/positive/c07_shapes.cc (by-value parameter)', any(i.status == 'violation' for i in prep2.instances.values()))
     saved = env.REPO
     fired_d = False
     for fn in pp.functions:
